@@ -31,7 +31,7 @@ def table(path, metadir, benign=False):
                     break
             lines.append("| %s | %d | %s | %s |" % (mid, len(v["checks"]) - len(fired), ",".join(fired) or "—", why or "—"))
             continue
-        target = mid.split("-")[0] if mid[0] == "C" and mid[1:3].isdigit() else meta.get("property", "?")
+        target = meta.get("property") or mid.split("-")[0]
         desc = (meta.get("description") or meta.get("needs_to_manifest") or "")[:110].replace("|", "/").replace("\n", " ")
         if not v.get("applies", True):
             lines.append("| %s | %s | %s | does not apply | |" % (mid, target, desc))
